@@ -1,5 +1,5 @@
 #!/bin/bash
 # tools/seed_check.sh <seed-ID> <n> <check IDs...> : apply the seeded change to /repo, run the quick checks, undo.
 ID=$1; N=$2; shift 2
-P=/tmp/seed/$ID/change$N.diff; [ -f "$P" ] || P=/verif/seeded/$ID-$N/patch.diff
+P=${SEEDDIR:-/tmp/seed}/$ID/change$N.diff; [ -f "$P" ] || P=/verif/seeded/$ID-$N/patch.diff
 /verif/tools/mutant.sh $P "$@"
